@@ -248,6 +248,7 @@ func run(c *fw.Ctx) {
 		}
 	}
 	runRunner(c)
+	runCmd(c)
 }
 
 // runRunner: the task runner is the lock's main client (anchored in runner.go): programs that combine
@@ -281,6 +282,14 @@ func replay(wj json.RawMessage) (*fw.Violation, error) {
 		Program string    `json:"program"`
 		Spec    c14.Spec  `json:"spec"`
 		Choices []int     `json:"choices"`
+	}
+	var cw struct {
+		Program string  `json:"program"`
+		Spec    CmdSpec `json:"spec"`
+		Choices []int   `json:"choices"`
+	}
+	if err := json.Unmarshal(wj, &cw); err == nil && strings.HasPrefix(cw.Program, "cmd: ") {
+		return explore.ReplayProgram(mkCmd(cw.Spec), cw.Choices)
 	}
 	if err := json.Unmarshal(wj, &rw); err == nil && strings.HasPrefix(rw.Program, "runner: ") {
 		return explore.ReplayProgram(c14.MkProgramFor("C15", rw.Spec), rw.Choices)
@@ -324,7 +333,7 @@ func replay(wj json.RawMessage) (*fw.Violation, error) {
 
 func init() {
 	fw.Register(&fw.Check{ID: "C15", Level: "model_checking",
-		Rule: "programs = every unordered pair (36) and triple of holders with lock maps over resources {a,b} (absent/R/W per resource, non-empty; quick: triples with >=5 lock entries, thorough: all 120); holder = Lock(map), enter, scheduling point, exit, Unlock; every schedule with <=3/2 (quick) or <=5/3 (thorough) preemptions, the iteration order of the lock map inside Lock being an additional explored choice; oracle: no two conflicting holders inside at once, every compatible pair overlaps in at least one explored execution, no deadlock; 17 programs over resources {a,b,c,d} in which a holder stays inside until a compatible holder has entered while a third, conflicting holder is blocked inside Lock (serialisation of unrelated holders shows as a program that never finishes); plus the lock's main client: 3 programs that combine the task runner's wait lists with named write/read locks (a task blocked on its wait list must not hold its resources), driven through the whole-application harness of C14 under every schedule with free context switches at blocking points. states = distinct schedule traces",
+		Rule: "programs = every unordered pair (36) and triple of holders with lock maps over resources {a,b} (absent/R/W per resource, non-empty; quick: triples with >=5 lock entries, thorough: all 120); holder = Lock(map), enter, scheduling point, exit, Unlock; every schedule with <=3/2 (quick) or <=5/3 (thorough) preemptions, the iteration order of the lock map inside Lock being an additional explored choice; oracle: no two conflicting holders inside at once, every compatible pair overlaps in at least one explored execution, no deadlock; 17 programs over resources {a,b,c,d} in which a holder stays inside until a compatible holder has entered while a third, conflicting holder is blocked inside Lock (serialisation of unrelated holders shows as a program that never finishes); plus the lock's main client: 3 programs that combine the task runner's wait lists with named write/read locks (a task blocked on its wait list must not hold its resources), driven through the whole-application harness of C14 under every schedule with free context switches at blocking points; 3 (thorough 5) command-level programs: two pip:run commands issued from two goroutines whose --rlock/--wlock lists name the same resource (also on both lists: write access wins), exclusion judged inside the task bodies. states = distinct schedule traces",
 		Run: run, Replay: replay,
 		Assumptions: []string{"2 resources, 2-3 holders; Go's RWMutex writer preference is modelled by the shim (announced writer blocks later readers)"}})
 }
